@@ -4,10 +4,13 @@ package c17
 import (
 	"bytes"
 	"context"
+	"errors"
 	"fmt"
 	"os"
 	"os/exec"
 	"path/filepath"
+	"strings"
+	"sync/atomic"
 	"testing"
 	"time"
 
@@ -30,6 +33,8 @@ type Case struct {
 	B      int         `json:"b"`
 	Bit    int         `json:"bit"`
 	CLI    bool        `json:"cli,omitempty"` // also run `desync verify-index -n N` (needs $VERIF_DESYNC_BIN)
+	SHA256 bool        `json:"sha256,omitempty"` // index made with, and verification configured for, the SHA256 digest
+	Cancel int         `json:"cancel,omitempty"` // 0: never; -1: context cancelled before the call; k>0: cancelled at the k-th hook hit (feed/batch sites)
 }
 
 func batchOf(chunks, n int) int { return chunks / (n * 10) }
@@ -76,6 +81,13 @@ func genCase(t *rapid.T) Case {
 	c.A = rapid.IntRange(0, 1<<20).Draw(t, "a")
 	c.B = rapid.IntRange(0, 1<<20).Draw(t, "b")
 	c.Bit = rapid.IntRange(0, 7).Draw(t, "bit")
+	c.SHA256 = rapid.IntRange(0, 3).Draw(t, "sha256") == 0
+	if rapid.IntRange(0, 3).Draw(t, "cancel?") == 0 {
+		c.Cancel = -1
+		if rapid.Bool().Draw(t, "cancelmid") {
+			c.Cancel = rapid.IntRange(1, 12).Draw(t, "cancelat")
+		}
+	}
 	if os.Getenv("VERIF_DESYNC_BIN") != "" && rapid.IntRange(0, hx.Pick(60, 15)).Draw(t, "cli") == 0 {
 		c.CLI = true
 		if rapid.IntRange(0, 5).Draw(t, "cliempty") == 0 { // the empty blob and its index without chunks
@@ -132,7 +144,14 @@ func run(c Case) (o hx.Outcome) {
 	} else {
 		spans = ref.Chunk(blob, c.Sizes.Min, c.Sizes.Avg, c.Sizes.Max, false)
 	}
-	idx := dx.BuildIndex(blob, spans, c.Sizes, false)
+	idx := dx.BuildIndex(blob, spans, c.Sizes, c.SHA256)
+	oldDigest := desync.Digest
+	if c.SHA256 {
+		desync.Digest = desync.SHA256{}
+	} else {
+		desync.Digest = desync.SHA512256{}
+	}
+	defer func() { desync.Digest = oldDigest }()
 	n := c.N
 	if n < 1 {
 		n = 1
@@ -219,7 +238,27 @@ func run(c Case) (o hx.Outcome) {
 	dir := hx.Scratch("c17")
 	defer os.RemoveAll(dir)
 	path := dx.WriteFile(dir, "blob", file)
-	err := desync.VerifyIndex(context.Background(), path, idx, n, desync.NullProgressBar{})
+	ctx, cancelCtx := context.WithCancel(context.Background())
+	if c.Cancel < 0 {
+		cancelCtx()
+	} else if c.Cancel > 0 {
+		var hits atomic.Int64
+		desync.VerifHook = func(site string) {
+			if strings.HasPrefix(site, "verifyindex.") && hits.Add(1) == int64(c.Cancel) {
+				cancelCtx()
+			}
+		}
+	}
+	err := desync.VerifyIndex(ctx, path, idx, n, desync.NullProgressBar{})
+	desync.VerifHook = nil
+	cancelCtx()
+	if c.Cancel > 0 {
+		// the hook may never have been hit that often
+		o.Class("cancel:mid-run")
+	}
+	if c.Cancel < 0 {
+		o.Class("cancel:before-call")
+	}
 
 	if c.CLI && os.Getenv("VERIF_DESYNC_BIN") != "" {
 		ipath := filepath.Join(dir, "blob.caibx")
@@ -227,7 +266,12 @@ func run(c Case) (o hx.Outcome) {
 			idx.WriteTo(f)
 			f.Close()
 			ctx, cancel := context.WithTimeout(context.Background(), 120*time.Second)
-			cmd := exec.CommandContext(ctx, os.Getenv("VERIF_DESYNC_BIN"), "verify-index", "-n", fmt.Sprint(n), ipath, path)
+			args := []string{"verify-index", "-n", fmt.Sprint(n), ipath, path}
+			if c.SHA256 {
+				args = append([]string{"--digest", "sha256"}, args...)
+				o.Class("cli-verify-index:sha256")
+			}
+			cmd := exec.CommandContext(ctx, os.Getenv("VERIF_DESYNC_BIN"), args...)
 			cmd.Env = []string{"HOME=" + dir, "TMPDIR=" + dir, "PATH=/usr/bin:/bin"}
 			out, cerr := cmd.CombinedOutput()
 			timedOut := ctx.Err() != nil
@@ -275,6 +319,22 @@ func run(c Case) (o hx.Outcome) {
 		o.Class("damage-at-batch-boundary")
 	}
 	o.Nontrivial = batch >= 1 && (same || boundary)
+	if c.SHA256 {
+		o.Class("digest:sha256")
+	}
+	var intr desync.Interrupted
+	if c.Cancel != 0 && errors.As(err, &intr) {
+		// a cancelled verification may stop with "interrupted" whatever the file holds; it must
+		// never report success for a file that differs (checked below)
+		o.Class("cancel:interrupted")
+		if !same {
+			o.Class("cancel:mismatch-not-accepted")
+		}
+		return o
+	}
+	if c.Cancel != 0 && !same && err != nil {
+		o.Class("cancel:mismatch-not-accepted")
+	}
 	if same && err != nil {
 		o.Fail("C17:reject-matching", "file equals the indexed blob (%d bytes, %d chunks, n=%d) but VerifyIndex failed: %v", len(blob), nch, n, err)
 	}
@@ -288,10 +348,10 @@ func run(c Case) (o hx.Outcome) {
 var spec = &hx.Spec[Case]{
 	ID:    "C17",
 	Level: "exploration",
-	Rule: "cases = (blob, index by reference chunker or arbitrary 1..8-byte tiling, n in 1..64, one modification: none/flip one bit/truncate/extend/swap equal-size chunks/overwrite chunk); " +
+	Rule: "cases = (blob, index by reference chunker or arbitrary 1..8-byte tiling, n in 1..64, one modification: none/flip one bit/truncate/extend/swap equal-size chunks/overwrite chunk; digest SHA512-256 or SHA256; context never cancelled, cancelled before the call or at the k-th feed/batch hook hit); " +
 		"non-trivial = modified file whose damaged chunk is first/last of a verification batch (or last chunk), or an unmodified file with chunks/(10n) >= 1; distinct by (length, chunks, n, mod, chunk, position)",
 	Assumptions: []string{"oracle: VerifyIndex==nil iff file bytes equal the blob (direct comparison)", "chunk IDs computed with crypto/sha512 directly", "files are regular files on the scratch filesystem"},
-	Required:    []string{"mod:none", "mod:flip", "mod:trunc", "mod:extend", "mod:swap", "mod:overwrite", "batch>=1", "damage-at-batch-boundary", "file==blob", "file!=blob"},
+	Required:    []string{"mod:none", "mod:flip", "mod:trunc", "mod:extend", "mod:swap", "mod:overwrite", "batch>=1", "damage-at-batch-boundary", "file==blob", "file!=blob", "digest:sha256", "cancel:before-call", "cancel:mid-run", "cancel:interrupted", "cancel:mismatch-not-accepted"},
 	Gen:         genCase,
 	Run:         run,
 }
